@@ -1,4 +1,5 @@
 PROP = {
+    "ready": True,
     "harness": [
         "harness/C19.cpp",
         # pathops.h is header-only; -O0 keeps path_is_single_dot's unconditional
